@@ -842,6 +842,35 @@ def extract_mutation_loads_pass_database(repo):
     return ok
 
 
+def extract_attr_value_by_presence(repo):
+    """FieldSignature.get_attr_value returns the stored value whenever the key is in field_attrs (a subscript inside
+    `try`, the default only under `except KeyError`) - whatever the value, falsy ones included"""
+    tree = ast.parse(_src(repo, 'django_evolution/signature.py'))
+    cls = _find_class(tree, 'FieldSignature')
+    fn = _find_func(cls, 'get_attr_value')
+    body = [n for n in fn.body if not (isinstance(n, ast.Expr) and isinstance(getattr(n, 'value', None), ast.Constant))]
+    if len(body) != 1 or not isinstance(body[0], ast.Try):
+        return False
+    t = body[0]
+    ok_try = len(t.body) == 1 and isinstance(t.body[0], ast.Return) and \
+        ast.unparse(t.body[0].value) == 'self.field_attrs[attr_name]'
+    ok_exc = len(t.handlers) == 1 and t.handlers[0].type is not None and ast.unparse(t.handlers[0].type) == 'KeyError'
+    return bool(ok_try and ok_exc and not t.orelse and not t.finalbody)
+
+
+def extract_index_fields_default(repo):
+    """IndexSignature.deserialize: what a missing `fields` key is read as ('None' when `.get('fields')` has no
+    default; else the source text of the default)"""
+    tree = ast.parse(_src(repo, 'django_evolution/signature.py'))
+    cls = _find_class(tree, 'IndexSignature')
+    fn = _find_func(cls, 'deserialize')
+    for n in ast.walk(fn):
+        if isinstance(n, ast.Call) and isinstance(n.func, ast.Attribute) and n.func.attr == 'get' and n.args and \
+                isinstance(n.args[0], ast.Constant) and n.args[0].value == 'fields':
+            return 'None' if len(n.args) == 1 and not n.keywords else ast.unparse(n.args[1] if len(n.args) > 1 else n.keywords[0].value)
+    raise ExtractError("IndexSignature.deserialize: no .get('fields') found")
+
+
 def extract_copy_guards(repo):
     """SQLiteAlterTableSQLResult.to_sql: (a) the tests under which an item's initial value is registered in
     `new_initial` (one per `new_initial[...] = initial` assignment: the innermost enclosing `if`), and the test of
@@ -1059,6 +1088,14 @@ def regenerate(repo, outdir):
     flags['mutation_loads_pass_database'] = mlp
     parts.append('/-- EvolveAppTask.prepare (preview) and _build_batches (execution) load the mutations for evolver.database_name -/')
     parts.append('def mutationLoadsPassDatabase : Bool := ' + ('true' if mlp else 'false'))
+    avp = extract_attr_value_by_presence(repo)
+    flags['attr_value_by_presence'] = avp
+    parts.append('/-- FieldSignature.get_attr_value returns the stored value whenever the key is present -/')
+    parts.append('def attrValueByPresence : Bool := ' + ('true' if avp else 'false'))
+    ifd = extract_index_fields_default(repo)
+    flags['index_fields_default'] = ifd
+    parts.append('/-- what IndexSignature.deserialize reads a missing `fields` key as -/')
+    parts.append('def indexFieldsDefault : String := ' + lean_str(ifd))
     cg = extract_copy_guards(repo)
     flags['copy_guards'] = cg
     parts.append('/-- SQLite rebuild: the tests under which an initial value is registered for the copy, the test around the '
